@@ -81,7 +81,9 @@ def seeded_variants(prop):
             continue
         with open(patch) as handle:
             files = [l.split(' b/', 1)[1].strip() for l in handle if l.startswith('diff --git ') and ' b/' in l]
-        if not (name.split('_')[0] == prop or any(f in ANCHOR_FILES.get(prop, []) for f in files)):
+        # helpers every property stands on (call closure, rules/helpers.py, the shared processor base): a refactoring there is replayed for every property
+        shared_ground = ('vermouth/utils.py', 'vermouth/selectors.py', 'vermouth/processors/processor.py', 'vermouth/graph_utils.py', 'vermouth/system.py')
+        if not (name.split('_')[0] == prop or any(f in ANCHOR_FILES.get(prop, []) for f in files) or any(f in shared_ground for f in files)):
             continue
         if prop in known_alarms.get(name, []):
             continue
